@@ -13,6 +13,8 @@ package comp
 //       add | avail | rm | rmall …   the EntityLocal helper (op language of usecase_test.go)
 //       m <op>                       the helper of package model applied by the application to a DataCopy of its own,
 //                                    which is then dropped: neither the store nor any retained value may change
+//       o K <op>                     the helper of package model applied by the application to the value it was handed as
+//                                    K-th (oldest = 0): that value changes, the store and every other value may not
 //       snap K                       a value is handed out and retained (K = 0 DataCopy, 1 LocalFeatureDataCopyOfType,
 //                                    2 struct copy of a DataCopy)
 //       has E A N                    HasUseCaseSupport (compared with the model)
@@ -63,6 +65,11 @@ func (uw *ucsWorld) scratch(f []string) {
 	if d == nil {
 		d = &model.NodeManagementUseCaseDataType{}
 	}
+	uw.helperOn(d, f)
+}
+
+// helperOn: the helper of package model applied to a value the application holds
+func (uw *ucsWorld) helperOn(d *model.NodeManagementUseCaseDataType, f []string) {
 	e := uw.es[f[1]]
 	addr := model.FeatureAddressType{Device: e.Address().Device, Entity: e.Address().Entity}
 	switch f[0] {
@@ -152,6 +159,29 @@ func snapHistory(r *h.Report, d *h.Driver, ops []string) bool {
 				return false
 			}
 			continue
+		case f[0] == "o":
+			// the application runs a helper of package model on a value it was handed earlier: that value changes,
+			// nothing else may
+			if len(f) < 3 || !ucsValidOp(f[2:]) || f[2] == "has" || f[2] == "rment" {
+				panic("bad snap op " + op)
+			}
+			k, _ := strconv.Atoi(f[1])
+			if len(hs) == 0 {
+				done = done[:len(done)-1]
+				continue
+			}
+			k %= len(hs)
+			op = fmt.Sprintf("o %d %s", k, strings.Join(f[2:], " "))
+			done[len(done)-1] = op
+			helper = snapModelHelperOf[f[2]]
+			before := hpJSON(uw.registry())
+			uw.helperOn(hs[k].val, f[2:])
+			hs[k].js = hpJSON(hs[k].val)
+			if after := hpJSON(uw.registry()); after != before {
+				r.SpecFail("C11/usecase-helper-inplace:"+helper, done, fmt.Sprintf("the stored use-case data read %s and reads %s after the application ran %s on a value it was handed earlier", before, after, helper))
+			}
+			ans = d.Ask(op)
+			r.Eval("uc:o-"+f[2], "")
 		case f[0] == "m":
 			if len(f) < 2 || !ucsValidOp(f[1:]) || f[1] == "has" || f[1] == "rment" {
 				panic("bad snap op " + op)
@@ -222,6 +252,10 @@ func snapCorpus() [][]string {
 		// two appends from the same base (spare capacity of the support array / of the information array)
 		{"add 1 1 1 0 1 - 1", "add 1 1 2 0 1 - 1", "add 1 1 3 0 1 - 1", "rm 1 1 3", "snap 0", "add 1 1 3 1 1 - 1", "snap 0", "rm 1 1 3", "add 1 1 3 2 0 - 1"},
 		{"add 1 1 1 0 1 - 1", "add 2 1 1 0 1 - 1", "add 1.1 1 1 0 1 - 1", "rmall 1.1", "snap 0", "add 1.1 2 1 0 1 - 1", "snap 0", "rmall 1.1", "add 1.1 1 2 0 1 - 1"},
+		// two appends from the same base: the store's and the application's on the value it was handed before (support
+		// list of one element: four names incl. the empty one; information list: four elements)
+		{"add 1 1 1 0 1 - 1", "add 1 1 2 0 1 - 1", "add 1 1 3 0 1 - 1", "snap 0", "add 1 1 0 0 1 - 1", "snap 0", "o 0 add 1 1 0 2 0 - 1", "o 1 rm 1 1 2"},
+		{"add 1 1 1 0 1 - 1", "add 2 1 1 0 1 - 1", "add 1.1 1 1 0 1 - 1", "snap 0", "add 1 2 1 0 1 - 1", "snap 1", "o 0 add 2 2 2 0 1 - 1", "o 1 rmall 2", "o 0 avail 1 1 1 0"},
 	}
 }
 
@@ -435,8 +469,13 @@ func TestSnap(t *testing.T) {
 				if op == "read" {
 					continue
 				}
-				if !strings.HasPrefix(op, "has") && rng.Intn(8) == 0 {
-					op = "m " + op // (the generator's own bookkeeping then runs ahead of the store: harmless, it only steers choices)
+				if !strings.HasPrefix(op, "has") {
+					switch rng.Intn(12) {
+					case 0, 1: // (the generator's own bookkeeping then runs ahead of the store: harmless, it only steers choices)
+						op = "m " + op
+					case 2:
+						op = fmt.Sprintf("o %d %s", rng.Intn(4), op)
+					}
 				}
 				hist = append(hist, op)
 			}
